@@ -250,11 +250,12 @@ Section Generic.
     0 < C -> wf C m -> all_good m ->
     exists o, argmax_generic le m = Ok o /\ argmax_spec C m o.
   Proof.
-    intros HC Hwf Hg. destruct m as [|row m'] eqn:Em.
+    intros HC Hwf Hg. destruct m as [|row m'].
     - exists None. simpl. auto.
-    - rewrite <- Em in *. assert (Hne : m <> []) by (subst; discriminate).
-      destruct (first_cell C m HC Hwf Hne) as (b0 & Hi & H0).
-      unfold argmax_generic. rewrite Em at 1. rewrite Hi. cbn [rbind].
+    - assert (Hne : row :: m' <> []) by discriminate.
+      destruct (first_cell C _ HC Hwf Hne) as (b0 & Hi & H0).
+      unfold argmax_generic. rewrite Hi. cbn [rbind].
+      remember (row :: m') as m eqn:Em.
       eexists. split; [reflexivity|].
       rewrite scan_rows_fold.
       assert (Hb0 : good b0).
@@ -545,7 +546,7 @@ Section Generic.
     Forall good l -> exists o, lin_best le l = Ok o /\ lin_spec l o.
   Proof.
     intros Hg. destruct l as [|x l]; simpl.
-    - exists None. auto.
+    - exists None. split; reflexivity.
     - inversion Hg; subst. rewrite lin_fold_good; auto. cbn [rbind]. eexists. split; [reflexivity|].
       pose proof (picks_ge le good PO (@snd nat T)) as Hpk. fold lpick in Hpk.
       assert (Hgl : Forall (fun y : nat * T => good (snd y)) (combine (seq 1 (length l)) l)).
